@@ -61,6 +61,7 @@ D1 == "a"
 D2 == "b"
 D1Alt == "3"
 D2Alt == "D"
+D2Nl  == "li\nne"        \* a directory name with a line break in it: "**" spans it like any other character that is not "/"
 LevelDir(k)      == CASE k = 1 -> <<>> [] k = 2 -> <<D1>> [] k = 3 -> <<D1, D2>>
 LevelDirChars(k) == CASE k = 1 -> <<>> [] k = 2 -> <<D1>> [] k = 3 -> <<D1, "/", D2>>
 LevelSrc(k)      == CASE k = 1 -> "REUSE.toml" [] k = 2 -> D1 \o "/REUSE.toml" [] k = 3 -> D1 \o "/" \o D2 \o "/REUSE.toml"
